@@ -654,22 +654,40 @@ func (o OneOf) Match(got interface{}) bool {
 // Unordered matches a list whose elements match the expected ones in any order.
 type Unordered []interface{}
 
-// Match finds a bijection between expected and observed elements.
+// Match finds a bijection between expected and observed elements (maximum bipartite matching: expected elements may
+// contain wildcards, so taking the first observed element that fits is not enough).
 func (u Unordered) Match(got interface{}) bool {
 	g, isL := got.([]interface{})
 	if !isL || len(g) != len(u) {
 		return false
 	}
-	used := make([]bool, len(g))
-	for _, e := range u {
-		found := false
-		for i, x := range g {
-			if !used[i] && Match(e, x) {
-				used[i], found = true, true
-				break
+	n := len(u)
+	fits := make([][]bool, n)
+	for i, e := range u {
+		fits[i] = make([]bool, n)
+		for j, x := range g {
+			fits[i][j] = Match(e, x)
+		}
+	}
+	owner := make([]int, n) // observed j is taken by expected owner[j]
+	for j := range owner {
+		owner[j] = -1
+	}
+	var try func(i int, seen []bool) bool
+	try = func(i int, seen []bool) bool {
+		for j := 0; j < n; j++ {
+			if fits[i][j] && !seen[j] {
+				seen[j] = true
+				if owner[j] < 0 || try(owner[j], seen) {
+					owner[j] = i
+					return true
+				}
 			}
 		}
-		if !found {
+		return false
+	}
+	for i := 0; i < n; i++ {
+		if !try(i, make([]bool, n)) {
 			return false
 		}
 	}
